@@ -42,6 +42,22 @@ func init() {
 			"loaded nodes start with the same key both are expanded and neither item is pushed back; alreadyNotified loads only the link it " +
 			"is asked about and the single-link pass-through nodes below it.",
 		Run: runDIFFREADS})
+	Register(&Rule{ID: "DELIVERALL", Props: []string{"C07"}, Min: 2,
+		Doc: "between one diff step and the next, every link cell read by the link callback (added, removed) that is non-nil is handed to the " +
+			"callback (or the diff stops/fails): the delivery of one side does not depend on the other side's cell being nil.",
+		Run: runDELIVERALL})
+	Register(&Rule{ID: "KEYEQ", Props: []string{"C06"}, Min: 1,
+		Doc: "in the diff, reflect.DeepEqual decides only whether the two sides' values differ: its operands are the old and the new Value, never a " +
+			"key or a whole entry (key equality is the comparator's business).",
+		Run: runKEYEQ})
+	Register(&Rule{ID: "EXPANDALL", Props: []string{"C06", "C07"}, Min: 2,
+		Doc: "a link item that the diff step consumes (links not equal, item not pushed back) always has something pushed onto the stack of its " +
+			"side before the step returns successfully: a loaded node is never dropped unexpanded.",
+		Run: runEXPANDALL})
+	Register(&Rule{ID: "LOADPROV", Props: []string{"C15"}, Min: 4,
+		Doc: "every node read of the diff step (load, alreadyNotified) is given the link of an item popped from a diff stack in that step, never " +
+			"a link read out of a loaded node.",
+		Run: runLOADPROV})
 	Register(&Rule{ID: "DIFFSHORTCUT", Props: []string{"C15"}, Min: 5,
 		Doc: "in the both-links case of the diff step the old and the new link are compared; every node load of that case lies on the unequal " +
 			"edge, the equal edge returns without a load and without pushing either item back; when both stacks are empty the step ends " +
@@ -186,8 +202,8 @@ func runSIDES(c *Ctx) {
 				fmt.Sprintf("%s: a %s value is put into it; %s", v.desc, v.side, why))
 		case "co-argument":
 			callee := "?"
-			if ci, ok := v.at.(ssa.CallInstruction); ok && ci.Common().StaticCallee() != nil {
-				callee = ci.Common().StaticCallee().Name()
+			if ci, ok := v.at.(ssa.CallInstruction); ok && ir.Callee(ci.Common()) != nil {
+				callee = ir.Callee(ci.Common()).Name()
 			}
 			c.Violation(fn, pos, fmt.Sprintf("%s(%s) used by %s with %s arguments", short, s.cur, callee, v.side),
 				fmt.Sprintf("%s; %s", v.desc, why))
@@ -237,7 +253,7 @@ func sidesCalls(c *Ctx, S *sidesInfo) {
 					continue
 				}
 				com := ci.Common()
-				callee := com.StaticCallee()
+				callee := ir.Callee(com)
 				pos := P.InstrPos(ci)
 				if callee != nil && S.slice[callee] && S.poly[callee] {
 					args := S.callArgs(ci)
@@ -365,33 +381,35 @@ func sidesCallbacks(c *Ctx, S *sidesInfo) {
 				}
 			case "link":
 				nLink++
-				if S.linkRemovedIdx >= len(args) || S.linkLinkIdx >= len(args) {
-					continue
-				}
-				rem, isC := ir.ConstBool(args[S.linkRemovedIdx])
-				link := args[S.linkLinkIdx]
-				if !isC {
-					c.Undecided(fn, pos, "link callback: removed is not a constant",
-						"the side a reported link must have is fixed by the constant passed as `removed`; here it is computed")
-					continue
-				}
-				want := sdNew
-				if rem {
-					want = sdOld
-				}
-				got := S.sideOf(link)
-				what := fmt.Sprintf("link callback (removed=%v) link = %s in %s", rem, sdDesc(link), ir.FuncName(fn))
-				switch {
-				case got == want:
-					c.OK(pos, what, "the link is "+got.String(), false)
-				case got == sdNone:
-					c.Undecided(fn, pos, fmt.Sprintf("link callback removed=%v: link without a side", rem),
-						fmt.Sprintf("the link %s reported with removed=%v must be a %s link; its side cannot be determined", sdDesc(link), rem, want))
-				default:
-					c.Violation(fn, pos, fmt.Sprintf("link callback removed=%v given %s link", rem, got),
-						fmt.Sprintf("the link callback is told removed=%v (so the link must belong to the %s version) but receives the %s link %s", rem, want, got, sdDesc(link)))
-				}
 			}
+		}
+	}
+	dl, unres := S.LinkDeliveries()
+	for _, ci := range unres {
+		c.Undecided(ci.Parent(), P.InstrPos(ci), "link callback: removed is not a constant",
+			"the side a reported link must have is fixed by the constant passed as `removed`; here it is computed (and not a parameter that receives a constant at every call)")
+	}
+	for _, d := range dl {
+		fn, pos := d.at.Parent(), P.InstrPos(d.at)
+		rem, link := d.removed, d.link
+		want := sdNew
+		if rem {
+			want = sdOld
+		}
+		got := S.sideOf(link)
+		what := fmt.Sprintf("link callback (removed=%v) link = %s in %s", rem, sdDesc(link), ir.FuncName(fn))
+		if d.via != "" {
+			what += " via " + d.via
+		}
+		switch {
+		case got == want:
+			c.OK(pos, what, "the link is "+got.String(), false)
+		case got == sdNone:
+			c.Undecided(fn, pos, fmt.Sprintf("link callback removed=%v: link without a side", rem),
+				fmt.Sprintf("the link %s reported with removed=%v must be a %s link; its side cannot be determined", sdDesc(link), rem, want))
+		default:
+			c.Violation(fn, pos, fmt.Sprintf("link callback removed=%v given %s link", rem, got),
+				fmt.Sprintf("the link callback is told removed=%v (so the link must belong to the %s version) but receives the %s link %s", rem, want, got, sdDesc(link)))
 		}
 	}
 	if nEntry == 0 {
@@ -428,7 +446,7 @@ func sidesType(c *Ctx, S *sidesInfo) {
 				call, ok := ir.ResolveCell(st.Val).(*ssa.Call)
 				var callee *ssa.Function
 				if ok {
-					callee = call.Call.StaticCallee()
+					callee = ir.Callee(call.Call)
 				}
 				if callee == nil || !S.slice[callee] || S.poly[callee] {
 					c.Undecided(fn, pos, "Diff.Type not computed by a flags-to-type function",
@@ -590,7 +608,7 @@ func (S *sidesInfo) popOf(item ssa.Value) (*ssa.Call, *sdSlot) {
 	if n, _ := sdNamedStruct(call.Type()); n == nil || n.Obj() != S.itemT.Obj() {
 		return nil, nil
 	}
-	callee := call.Call.StaticCallee()
+	callee := ir.Callee(call.Call)
 	if callee == nil || !S.slice[callee] {
 		return nil, nil
 	}
@@ -675,7 +693,7 @@ func (S *sidesInfo) itemProv(item ssa.Value, want side, use ssa.Instruction, dep
 		if call.Parent() == use.Parent() && !ir.Before(call, use) {
 			return lpVerdict{und: true, why: "the pop does not precede the use on every path", short: "pop not before use"}
 		}
-		return lpVerdict{ok: true, why: fmt.Sprintf("link of the item popped from %s (%s) by %s", sl.name, sl.cur, call.Call.StaticCallee().Name())}
+		return lpVerdict{ok: true, why: fmt.Sprintf("link of the item popped from %s (%s) by %s", sl.name, sl.cur, ir.Callee(call.Call).Name())}
 	}
 	switch x := item.(type) {
 	case *ssa.Parameter:
@@ -720,32 +738,31 @@ func runLINKPROV(c *Ctx) {
 	P := c.P
 	// the fields handed to the link callback, and the side each must have
 	report := map[*sdSlot]side{}
-	for _, fn := range S.fns {
-		for _, ci := range CallsOf(fn) {
-			if S.callbackKind(ci) != "link" {
-				continue
-			}
-			args := ci.Common().Args
-			rem, isC := ir.ConstBool(args[S.linkRemovedIdx])
-			sl := S.slotRef(args[S.linkLinkIdx])
-			pos := P.InstrPos(ci)
-			if !isC || sl == nil {
-				c.Undecided(fn, pos, "link callback argument not a state field",
-					fmt.Sprintf("the link given to the link callback (%s) is not read from a field of the diff state, or `removed` is not a constant: its provenance cannot be traced", sdDesc(args[S.linkLinkIdx])))
-				continue
-			}
-			want := sdNew
-			if rem {
-				want = sdOld
-			}
-			if prev, dup := report[sl]; dup && prev != want {
-				c.Violation(fn, pos, sl.name+" reported as added and as removed",
-					sl.name+" is handed to the link callback both with removed=true and removed=false")
-				continue
-			}
-			report[sl] = want
-			c.OK(pos, fmt.Sprintf("link callback removed=%v reads %s", rem, sl.name), "stores into it are checked below", false)
+	dl, unres := S.LinkDeliveries()
+	for _, ci := range unres {
+		c.Undecided(ci.Parent(), P.InstrPos(ci), "link callback: removed is not a constant",
+			"`removed` is neither a constant nor a parameter that receives a constant at every call: the provenance of the reported link cannot be traced")
+	}
+	for _, d := range dl {
+		fn, pos := d.at.Parent(), P.InstrPos(d.at)
+		rem := d.removed
+		sl := S.slotRef(d.link)
+		if sl == nil {
+			c.Undecided(fn, pos, "link callback argument not a state field",
+				fmt.Sprintf("the link given to the link callback (%s) is not read from a field of the diff state: its provenance cannot be traced", sdDesc(d.link)))
+			continue
 		}
+		want := sdNew
+		if rem {
+			want = sdOld
+		}
+		if prev, dup := report[sl]; dup && prev != want {
+			c.Violation(fn, pos, sl.name+" reported as added and as removed",
+				sl.name+" is handed to the link callback both with removed=true and removed=false")
+			continue
+		}
+		report[sl] = want
+		c.OK(pos, fmt.Sprintf("link callback removed=%v reads %s", rem, sl.name), "stores into it are checked below", false)
 	}
 	if len(report) == 0 {
 		c.Undecided(nil, "-", "no link callback invocation", "no invocation of the link callback found in the diff")
@@ -825,7 +842,7 @@ func linkProvByRef(c *Ctx, S *sidesInfo, call *ssa.Call, addr *ssa.FieldAddr, sl
 	if want == sdOld {
 		kind = "removed"
 	}
-	callee := call.Call.StaticCallee()
+	callee := ir.Callee(call.Call)
 	und := func(why string) {
 		c.Undecided(fn, pos, "address of "+sl.field.Name()+" escapes", "the address of "+sl.name+" is passed on; "+why)
 	}
@@ -924,7 +941,7 @@ func sdDescShape(v ssa.Value) string {
 	case *ssa.Parameter:
 		return "parameter"
 	case *ssa.Call:
-		if sc := x.Call.StaticCallee(); sc != nil {
+		if sc := ir.Callee(x.Call); sc != nil {
 			return "result of " + sc.Name()
 		}
 	case *ssa.Const:
@@ -1077,7 +1094,7 @@ func runDIFFSHORTCUT(c *Ctx) {
 		if ml, name := sdMayLoad(c, ci); ml {
 			loads = append(loads, lcall{ci, name})
 		}
-		if callee := ci.Common().StaticCallee(); callee != nil && S.slice[callee] {
+		if callee := ir.Callee(ci.Common()); callee != nil && S.slice[callee] {
 			if call, isCall := ci.(*ssa.Call); isCall {
 				if pc, _ := S.popOf(call); pc != nil {
 					continue
@@ -1364,6 +1381,8 @@ func (k *cbpCtx) continues(reach map[*ssa.BasicBlock]bool) []string {
 		}
 		if kind := k.S.callbackKind(ci); kind != "" {
 			out = append(out, kind+" callback")
+		} else if w := k.callbackHelper(ci); w != "" {
+			out = append(out, w)
 		} else if _, isStep := k.stepCallee(ci); isStep {
 			out = append(out, "next diff step")
 		}
@@ -1371,10 +1390,24 @@ func (k *cbpCtx) continues(reach map[*ssa.BasicBlock]bool) []string {
 	return dedup(out)
 }
 
+// callbackHelper: ci calls a helper of the diff that invokes a callback itself.
+func (k *cbpCtx) callbackHelper(ci ssa.CallInstruction) string {
+	callee := ir.Callee(ci.Common())
+	if callee == nil || !k.S.slice[callee] || callee == k.fn {
+		return ""
+	}
+	for _, c2 := range CallsOf(callee) {
+		if kind := k.S.callbackKind(c2); kind != "" {
+			return kind + " callback (through " + callee.Name() + ")"
+		}
+	}
+	return ""
+}
+
 // stepCallee: ci calls the diff step, or a helper of the diff that wraps it
 // (a function from which the step is reachable and that returns an error).
 func (k *cbpCtx) stepCallee(ci ssa.CallInstruction) (*ssa.Function, bool) {
-	callee := ci.Common().StaticCallee()
+	callee := ir.Callee(ci.Common())
 	if callee == nil {
 		return nil, false
 	}
@@ -1520,6 +1553,98 @@ func (k *cbpCtx) stepCalls(endOK func(op, e ssa.Value) bool, endDesc string, nee
 	return n
 }
 
+// cbpCheckCall checks the handling of the (keepGoing, error) results of a
+// callback invocation — or of a call of a helper that invokes the callback
+// and hands both results on to its caller (followed up to two levels).
+func cbpCheckCall(kk *cbpCtx, ci ssa.CallInstruction, name string, depth int) {
+	c, P, fn := kk.c, kk.c.P, kk.fn
+	pos := P.InstrPos(ci)
+	call, isCall := ci.(*ssa.Call)
+	if !isCall || kk.errIdx() < 0 {
+		c.Undecided(fn, pos, name+" not a plain call", "the callback is started with go/defer or from a function without an error result")
+		return
+	}
+	keep, e := cbResults(call)
+	if e == nil {
+		c.Violation(fn, pos, "error of the "+name+" ignored", "the callback's error result is dropped: the diff goes on (or ends successfully) although the callback failed")
+	} else if nifs := nilIfsOf(fn, e); len(nifs) == 0 {
+		c.Undecided(fn, pos, "error of the "+name+" never tested", "the callback's error is not compared with nil; the rule cannot find the failing path")
+	} else {
+		for _, ni := range nifs {
+			kk.mustFail("error of the "+name, e, ni.nonNil, nil, ci)
+		}
+	}
+	if keep == nil {
+		c.Violation(fn, pos, "keepGoing of the "+name+" ignored", "the callback's keepGoing result is dropped: the diff cannot be stopped early")
+		return
+	}
+	ifs, other := sdCondIfs(keep)
+	if other || len(ifs) == 0 {
+		// handed on to the caller?
+		if depth < 2 && len(ifs) == 0 && sdOnlyReturned(keep) {
+			n := 0
+			for _, cs := range P.Callers[fn] {
+				if !kk.S.slice[cs.Parent()] {
+					continue
+				}
+				n++
+				kc := &cbpCtx{c: c, S: kk.S, fn: cs.Parent(), step: kk.step}
+				cbpCheckCall(kc, cs, name+" (through "+fn.Name()+")", depth+1)
+			}
+			if n > 0 {
+				c.OK(pos, "keepGoing of the "+name+" in "+fn.Name(), fmt.Sprintf("returned to the caller; checked at its %d call site(s)", n), false)
+				return
+			}
+		}
+		c.Undecided(fn, pos, "keepGoing of the "+name+" not used as a branch condition", "keepGoing is not (only) used to branch; the rule cannot find the stopping path")
+		return
+	}
+	for _, i := range ifs {
+		// a callback may return (false, err): `return nil` on the
+		// keepGoing==false edge is right only where err is known nil
+		errKnownNil := e == nil || nilFactOn(i.If.Block(), e, true)
+		kk.mustStop("keepGoing==false of the "+name, i.OnFalse, func(op ssa.Value) bool {
+			if e != nil && sameValue(op, e) {
+				return true
+			}
+			return ir.IsNilConst(op) && errKnownNil
+		}, "nil (with the callback's error known to be nil) or that error", ci)
+	}
+}
+
+// sdOnlyReturned: v is used only as a result operand of return instructions
+// (possibly through φs).
+func sdOnlyReturned(v ssa.Value) bool {
+	seen := map[ssa.Value]bool{}
+	var ok func(v ssa.Value) bool
+	ok = func(v ssa.Value) bool {
+		if seen[v] {
+			return true
+		}
+		seen[v] = true
+		if v.Referrers() == nil {
+			return false
+		}
+		n := 0
+		for _, r := range *v.Referrers() {
+			switch x := r.(type) {
+			case *ssa.DebugRef:
+			case *ssa.Return:
+				n++
+			case *ssa.Phi:
+				if !ok(x) {
+					return false
+				}
+				n++
+			default:
+				return false
+			}
+		}
+		return n > 0
+	}
+	return ok(v)
+}
+
 func runCBPROP(c *Ctx) {
 	S := sidesReady(c)
 	if S == nil {
@@ -1541,48 +1666,14 @@ func runCBPROP(c *Ctx) {
 			}
 			nCb++
 			kk := &cbpCtx{c: c, S: S, fn: fn, step: step}
+			_ = k
 			name := kind + " callback"
 			if kind == "link" {
 				if rem, ok := ir.ConstBool(ci.Common().Args[S.linkRemovedIdx]); ok {
 					name = fmt.Sprintf("link callback(removed=%v)", rem)
 				}
 			}
-			pos := P.InstrPos(ci)
-			call, isCall := ci.(*ssa.Call)
-			if !isCall || kk.errIdx() < 0 {
-				c.Undecided(fn, pos, name+" not a plain call", "the callback is started with go/defer or from a function without an error result")
-				continue
-			}
-			keep, e := cbResults(call)
-			if e == nil {
-				c.Violation(fn, pos, "error of the "+name+" ignored", "the callback's error result is dropped: the diff goes on (or ends successfully) although the callback failed")
-			} else if nifs := nilIfsOf(fn, e); len(nifs) == 0 {
-				c.Undecided(fn, pos, "error of the "+name+" never tested", "the callback's error is not compared with nil; the rule cannot find the failing path")
-			} else {
-				for _, ni := range nifs {
-					kk.mustFail("error of the "+name, e, ni.nonNil, nil, ci)
-				}
-			}
-			if keep == nil {
-				c.Violation(fn, pos, "keepGoing of the "+name+" ignored", "the callback's keepGoing result is dropped: the diff cannot be stopped early")
-				continue
-			}
-			ifs, other := sdCondIfs(keep)
-			if other || len(ifs) == 0 {
-				c.Undecided(fn, pos, "keepGoing of the "+name+" not used as a branch condition", "keepGoing is not (only) used to branch; the rule cannot find the stopping path")
-				continue
-			}
-			for _, i := range ifs {
-				// a callback may return (false, err): `return nil` on the
-				// keepGoing==false edge is right only where err is known nil
-				errKnownNil := e == nil || nilFactOn(i.If.Block(), e, true)
-				kk.mustStop("keepGoing==false of the "+name, i.OnFalse, func(op ssa.Value) bool {
-					if e != nil && sameValue(op, e) {
-						return true
-					}
-					return ir.IsNilConst(op) && errKnownNil
-				}, "nil (with the callback's error known to be nil) or that error", ci)
-			}
+			cbpCheckCall(kk, ci, name, 0)
 		}
 	}
 	if nCb == 0 {
@@ -1722,22 +1813,16 @@ var _ = types.Identical
 // reportSlots: the state fields read by the link callback -> required side.
 func reportSlots(S *sidesInfo) map[*sdSlot]side {
 	report := map[*sdSlot]side{}
-	for _, fn := range S.fns {
-		for _, ci := range CallsOf(fn) {
-			if S.callbackKind(ci) != "link" {
-				continue
-			}
-			args := ci.Common().Args
-			rem, isC := ir.ConstBool(args[S.linkRemovedIdx])
-			sl := S.slotRef(args[S.linkLinkIdx])
-			if !isC || sl == nil {
-				continue
-			}
-			if rem {
-				report[sl] = sdOld
-			} else {
-				report[sl] = sdNew
-			}
+	dl, _ := S.LinkDeliveries()
+	for _, d := range dl {
+		sl := S.slotRef(d.link)
+		if sl == nil {
+			continue
+		}
+		if d.removed {
+			report[sl] = sdOld
+		} else {
+			report[sl] = sdNew
 		}
 	}
 	return report
@@ -1771,7 +1856,7 @@ func (S *sidesInfo) notNotifiedGuard(b *ssa.BasicBlock, notified *ssa.Function, 
 			cond, truth = u.X, !truth
 		}
 		call, ok := cond.(*ssa.Call)
-		if !ok || truth || call.Call.StaticCallee() != notified || len(call.Call.Args) == 0 {
+		if !ok || truth || ir.Callee(call.Call) != notified || len(call.Call.Args) == 0 {
 			continue
 		}
 		if S.sameLink(call.Call.Args[len(call.Call.Args)-1], link) {
@@ -1873,34 +1958,26 @@ func runNOTIFY(c *Ctx) {
 			}
 		}
 	}
-	// (2) alreadyNotified answers false on its error paths
+	// (2) alreadyNotified answers false on its error paths (errors tested in
+	// alreadyNotified itself, or in a helper that signals failure with a
+	// false boolean result)
 	nErr := 0
-	for _, ci := range CallsOf(notified) {
-		call, ok := ci.(*ssa.Call)
-		if !ok {
-			continue
-		}
-		_, e := cbResults(call)
-		if e == nil || !ir.IsErrorType(e.Type()) {
-			continue
-		}
-		for _, ni := range nilIfsOf(notified, e) {
-			nErr++
-			reach := ir.ReachableFrom(ni.nonNil, nil)
-			bad := false
-			for _, r := range ir.Returns(notified) {
-				if !reach[r.Block()] || len(r.Results) == 0 {
-					continue
-				}
-				if k, isC := ir.ConstBool(r.Results[0]); !isC || k {
-					c.Violation(notified, P.InstrPos(r), "error path of "+lpCallNameOf(call)+" does not answer false",
-						fmt.Sprintf("when %s fails, %s must answer false (not yet notified) so that the link is still recorded and the caller meets the same error; here it can answer %s: a node is silently left out of the node diff", lpCallNameOf(call), notified.Name(), sdDesc(r.Results[0])))
-					bad = true
-				}
+	for _, fe := range sdFailEdges(c, S, notified, 0) {
+		nErr++
+		reach := ir.ReachableFrom(fe.to, nil)
+		bad := false
+		for _, r := range ir.Returns(notified) {
+			if !reach[r.Block()] || len(r.Results) == 0 {
+				continue
 			}
-			if !bad {
-				c.OK(P.InstrPos(call), "error path of "+lpCallNameOf(call)+" in "+notified.Name(), "answers false", false)
+			if k, isC := ir.ConstBool(r.Results[0]); !isC || k {
+				c.Violation(notified, P.InstrPos(r), "error path of "+fe.what+" does not answer false",
+					fmt.Sprintf("when %s fails, %s must answer false (not yet notified) so that the link is still recorded and the caller meets the same error; here it can answer %s: a node is silently left out of the node diff", fe.what, notified.Name(), sdDesc(r.Results[0])))
+				bad = true
 			}
+		}
+		if !bad {
+			c.OK(P.InstrPos(fe.at), "error path of "+fe.what+" in "+notified.Name(), "answers false", false)
 		}
 	}
 	if nErr == 0 {
@@ -1913,7 +1990,7 @@ func runNOTIFY(c *Ctx) {
 }
 
 func lpCallNameOf(call *ssa.Call) string {
-	if sc := call.Call.StaticCallee(); sc != nil {
+	if sc := ir.Callee(call.Call); sc != nil {
 		return sc.Name()
 	}
 	if call.Call.IsInvoke() {
@@ -2101,7 +2178,7 @@ func diffReadsSameKey(c *Ctx, S *sidesInfo, step *ssa.Function) {
 	for _, ci := range CallsOf(step) {
 		call, isCall := ci.(*ssa.Call)
 		com := ci.Common()
-		if !isCall || com.StaticCallee() != nil || com.IsInvoke() || S.callbackKind(ci) != "" || len(com.Args) != 2 {
+		if !isCall || ir.Callee(com) != nil || com.IsInvoke() || S.callbackKind(ci) != "" || len(com.Args) != 2 {
 			continue
 		}
 		tup, isT := call.Type().(*types.Tuple)
@@ -2158,7 +2235,7 @@ func diffReadsSameKey(c *Ctx, S *sidesInfo, step *ssa.Function) {
 		expands := map[side]map[*ssa.BasicBlock]bool{sdOld: {}, sdNew: {}}
 		var pushBacks []ssa.CallInstruction
 		for _, pc := range CallsOf(step) {
-			callee := pc.Common().StaticCallee()
+			callee := ir.Callee(pc.Common())
 			if callee == nil || !S.slice[callee] {
 				continue
 			}
@@ -2245,12 +2322,19 @@ func sdAccessRoot(v ssa.Value) ssa.Value {
 // and, below it, the child of a node that has exactly one link (an empty
 // pass-through node).
 func diffReadsNotified(c *Ctx, S *sidesInfo, notified *ssa.Function) {
-	P := c.P
 	np := len(notified.Params)
 	if np == 0 {
 		return
 	}
-	linkP := notified.Params[np-1]
+	diffReadsLoadsIn(c, S, notified, notified, notified.Params[np-1], 0)
+}
+
+// diffReadsLoadsIn checks the loads of fn (alreadyNotified, or a helper it
+// hands its link to; followed two levels), whose link parameter is linkP.
+func diffReadsLoadsIn(c *Ctx, S *sidesInfo, top, fn *ssa.Function, linkP *ssa.Parameter, depth int) {
+	P := c.P
+	notified := fn
+	prim := c.P.MastFunc("(*Mast).load")
 	lenIsOne := func(b *ssa.BasicBlock, slice ssa.Value) bool {
 		want := ir.Sym(slice)
 		for _, f := range sdExpandFacts(ir.FactsAt(b), 0) {
@@ -2329,6 +2413,13 @@ func diffReadsNotified(c *Ctx, S *sidesInfo, notified *ssa.Function) {
 		}
 		if ok, why := allowed(linkArg, map[ssa.Value]bool{}); ok {
 			c.OK(pos, "load by "+name+" in "+notified.Name(), "the link asked about, or the only child of a pass-through node", false)
+			if callee := ir.Callee(ci.Common()); callee != nil && callee != prim && callee != fn && S.slice[callee] && depth < 2 {
+				for ai, a := range args {
+					if a == linkArg && ai < len(callee.Params) {
+						diffReadsLoadsIn(c, S, top, callee, callee.Params[ai], depth+1)
+					}
+				}
+			}
 		} else {
 			c.Violation(notified, pos, "load by "+name+" of a node that is not a pass-through child",
 				fmt.Sprintf("%s reads %s: %s — the memo check then loads nodes (possibly whole paths of unchanged nodes) that the cost bound does not account for", notified.Name(), sdDesc(linkArg), why))
@@ -2343,7 +2434,7 @@ func diffReadsNotified(c *Ctx, S *sidesInfo, notified *ssa.Function) {
 // or through a helper of the diff that calls alreadyNotified with the
 // corresponding parameter before each of its successful returns.
 func (S *sidesInfo) offersLink(ci ssa.CallInstruction, item ssa.Value, notified *ssa.Function) bool {
-	callee := ci.Common().StaticCallee()
+	callee := ir.Callee(ci.Common())
 	args := ci.Common().Args
 	if callee == nil || len(args) == 0 {
 		return false
@@ -2370,7 +2461,7 @@ func (S *sidesInfo) offersLink(ci ssa.CallInstruction, item ssa.Value, notified 
 		p := callee.Params[i]
 		ei := ir.ErrorResultIndex(callee.Signature)
 		for _, c2 := range CallsOf(callee) {
-			if c2.Common().StaticCallee() != notified {
+			if ir.Callee(c2.Common()) != notified {
 				continue
 			}
 			last := c2.Common().Args[len(c2.Common().Args)-1]
@@ -2456,7 +2547,7 @@ func notifyConsumed(c *Ctx, S *sidesInfo, step, notified *ssa.Function) {
 				nOffer++
 				continue
 			}
-			callee := ci.Common().StaticCallee()
+			callee := ir.Callee(ci.Common())
 			if callee == nil || !S.slice[callee] {
 				continue
 			}
@@ -2559,7 +2650,7 @@ func notifyNoReset(c *Ctx, S *sidesInfo, step, notified *ssa.Function, report ma
 				continue
 			}
 			for _, ci := range CallsOf(fn) {
-				if cal := ci.Common().StaticCallee(); cal != nil && clears[cal] {
+				if cal := ir.Callee(ci.Common()); cal != nil && clears[cal] {
 					clears[fn] = true
 					changed = true
 				}
@@ -2575,7 +2666,7 @@ func notifyNoReset(c *Ctx, S *sidesInfo, step, notified *ssa.Function, report ma
 		// notifications in fn: calls of alreadyNotified or of helpers containing one
 		var offers []ssa.CallInstruction
 		for _, ci := range CallsOf(fn) {
-			cal := ci.Common().StaticCallee()
+			cal := ir.Callee(ci.Common())
 			if cal == nil {
 				continue
 			}
@@ -2589,7 +2680,7 @@ func notifyNoReset(c *Ctx, S *sidesInfo, step, notified *ssa.Function, report ma
 				if sl := isClear(ins); sl != nil {
 					what = sl.field.Name() + " = nil"
 				} else if ci, ok := ins.(ssa.CallInstruction); ok {
-					if cal := ci.Common().StaticCallee(); cal != nil && clears[cal] && cal != step {
+					if cal := ir.Callee(ci.Common()); cal != nil && clears[cal] && cal != step {
 						what = "call " + cal.Name()
 					}
 				}
@@ -2692,7 +2783,7 @@ func diffReadsPassThrough(c *Ctx, S *sidesInfo, step *ssa.Function) {
 			seen[b] = true
 			nPass++
 		}
-		callee := ci.Common().StaticCallee()
+		callee := ir.Callee(ci.Common())
 		if callee == nil || !S.slice[callee] {
 			continue
 		}
@@ -2718,5 +2809,526 @@ func diffReadsPassThrough(c *Ctx, S *sidesInfo, step *ssa.Function) {
 	}
 	if nPass > 0 {
 		c.OK(P.Pos(step.Pos()), fmt.Sprintf("%d pass-through block(s) of %s", nPass, step.Name()), "the other side is not expanded there", false)
+	}
+}
+
+// sdFailEdge is a CFG edge of a function taken when an operation failed.
+type sdFailEdge struct {
+	to   *ssa.BasicBlock
+	what string
+	at   ssa.Instruction
+}
+
+// sdFailEdges: the edges of fn on which a call's error result is non-nil,
+// plus — for helpers of the diff (followed two levels) that report failure
+// through a boolean result which is constant false on each of their own
+// failure paths — the edges on which that result is false.
+func sdFailEdges(c *Ctx, S *sidesInfo, fn *ssa.Function, depth int) []sdFailEdge {
+	var out []sdFailEdge
+	for _, ci := range CallsOf(fn) {
+		call, ok := ci.(*ssa.Call)
+		if !ok {
+			continue
+		}
+		name := lpCallNameOf(call)
+		if _, e := cbResults(call); e != nil && ir.IsErrorType(e.Type()) {
+			for _, ni := range nilIfsOf(fn, e) {
+				out = append(out, sdFailEdge{ni.nonNil, name, call})
+			}
+		}
+		callee := ir.Callee(call.Call)
+		if callee == nil || !S.slice[callee] || callee == fn || depth >= 2 {
+			continue
+		}
+		inner := sdFailEdges(c, S, callee, depth+1)
+		if len(inner) == 0 {
+			continue
+		}
+		// boolean results that are false on every failure return of the helper
+		res := callee.Signature.Results()
+		for j := 0; j < res.Len(); j++ {
+			if !sdIsBool(res.At(j).Type()) {
+				continue
+			}
+			allFalse, any := true, false
+			for _, fe := range inner {
+				reach := ir.ReachableFrom(fe.to, nil)
+				for _, r := range ir.Returns(callee) {
+					if !reach[r.Block()] || j >= len(r.Results) {
+						continue
+					}
+					any = true
+					if k, isC := ir.ConstBool(r.Results[j]); !isC || k {
+						allFalse = false
+					}
+				}
+			}
+			if !allFalse || !any {
+				continue
+			}
+			var ex ssa.Value
+			if res.Len() == 1 {
+				ex = call
+			} else if call.Referrers() != nil {
+				for _, r := range *call.Referrers() {
+					if x, isEx := r.(*ssa.Extract); isEx && x.Index == j {
+						ex = x
+					}
+				}
+			}
+			if ex == nil {
+				continue
+			}
+			ifs, _ := sdCondIfs(ex)
+			for _, i := range ifs {
+				out = append(out, sdFailEdge{i.OnFalse, name + " (failure of " + inner[0].what + ")", call})
+			}
+		}
+	}
+	return out
+}
+
+// ---- shared: paths of the step that consume a link item ------------------------------
+
+// stepConsumeReach: the blocks of the step reachable from its entry when
+// `item` exists and carries a link (the other item being absent, an entry or
+// a link — each valuation pruned consistently), without entering a blocked
+// block and without taking the edge on which the old and the new link are equal.
+func stepConsumeReach(S *sidesInfo, step *ssa.Function, item, other *ssa.Call, blocked map[*ssa.BasicBlock]bool) map[*ssa.BasicBlock]bool {
+	isLinkOf := func(v ssa.Value, it *ssa.Call) bool {
+		x, ok := S.itemLink(v)
+		return ok && x == ssa.Value(it)
+	}
+	type edge struct{ from, to *ssa.BasicBlock }
+	var eqEdges []edge
+	for _, b := range step.Blocks {
+		for _, ins := range b.Instrs {
+			bin, isB := ins.(*ssa.BinOp)
+			if !isB || (bin.Op != token.EQL && bin.Op != token.NEQ) {
+				continue
+			}
+			if !(isLinkOf(bin.X, item) && isLinkOf(bin.Y, other)) && !(isLinkOf(bin.X, other) && isLinkOf(bin.Y, item)) {
+				continue
+			}
+			ifs, _ := sdCondIfs(bin)
+			for _, i := range ifs {
+				to := i.OnTrue
+				if bin.Op == token.NEQ {
+					to = i.OnFalse
+				}
+				eqEdges = append(eqEdges, edge{i.If.Block(), to})
+			}
+		}
+	}
+	isEq := func(f, t *ssa.BasicBlock) bool {
+		for _, e := range eqEdges {
+			if e.from == f && e.to == t {
+				return true
+			}
+		}
+		return false
+	}
+	reach := map[*ssa.BasicBlock]bool{}
+	for otherState := 0; otherState < 3; otherState++ {
+		leaf := func(cond ssa.Value) (bool, bool) {
+			v, tnn, ok := ir.NilTest(cond)
+			if !ok {
+				return false, false
+			}
+			nonNil, known := false, false
+			switch {
+			case ir.ResolveCell(ir.Strip(v)) == ssa.Value(item) || isLinkOf(v, item):
+				nonNil, known = true, true
+			case ir.ResolveCell(ir.Strip(v)) == ssa.Value(other):
+				nonNil, known = otherState != 0, true
+			case isLinkOf(v, other) && otherState != 0:
+				nonNil, known = otherState == 2, true
+			}
+			if !known {
+				return false, false
+			}
+			return nonNil == tnn, true
+		}
+		for b := range ir.ReachableFrom(step.Blocks[0], func(from, to *ssa.BasicBlock) bool {
+			return notifyPruned(from, to, blocked, leaf, isEq)
+		}) {
+			reach[b] = true
+		}
+	}
+	return reach
+}
+
+// ---- EXPANDALL --------------------------------------------------------------------
+
+func runEXPANDALL(c *Ctx) {
+	S := sidesReady(c)
+	if S == nil {
+		return
+	}
+	P := c.P
+	step := c.MustFunc("(*Mast).diffOne")
+	if step == nil {
+		return
+	}
+	oldItem, newItem, _, ok := stepItems(S, step)
+	if !ok {
+		c.Undecided(step, P.Pos(step.Pos()), "popped items not found", "the diff step does not pop one item per side")
+		return
+	}
+	ei := ir.ErrorResultIndex(step.Signature)
+	for _, sd := range []struct {
+		item, other *ssa.Call
+		s           side
+	}{{oldItem, newItem, sdOld}, {newItem, oldItem, sdNew}} {
+		_, stack := S.popOf(sd.item)
+		blocked := map[*ssa.BasicBlock]bool{}
+		nPush := 0
+		for _, ci := range CallsOf(step) {
+			callee := ir.Callee(ci.Common())
+			if callee == nil || !S.slice[callee] {
+				continue
+			}
+			if call, isCall := ci.(*ssa.Call); isCall {
+				if pc, _ := S.popOf(call); pc != nil {
+					continue
+				}
+			}
+			for _, a := range ci.Common().Args {
+				if sl := S.slotRef(a); sl != nil && sl == stack {
+					blocked[ci.Block()] = true
+					nPush++
+					break
+				}
+			}
+		}
+		reach := stepConsumeReach(S, step, sd.item, sd.other, blocked)
+		bad := false
+		for _, r := range ir.Returns(step) {
+			if !reach[r.Block()] || ei < 0 || !ir.IsNilConst(r.Results[ei]) {
+				continue
+			}
+			c.Violation(step, P.InstrPos(r), fmt.Sprintf("%s link item consumed without anything pushed on the %s stack", sd.s, sd.s),
+				fmt.Sprintf("the step can return successfully with the %s item carrying a link (not equal to the other side's), and neither that item nor the children of its node were pushed onto %s: the whole subtree silently drops out of the diff", sd.s, stack.name))
+			bad = true
+		}
+		if !bad {
+			c.OK(P.InstrPos(sd.item), fmt.Sprintf("%s link item of %s", sd.s, step.Name()),
+				fmt.Sprintf("every successful path that consumes it passes one of the %d pushes onto %s", nPush, stack.name), false)
+		}
+	}
+}
+
+// ---- LOADPROV ---------------------------------------------------------------------
+
+func runLOADPROV(c *Ctx) {
+	S := sidesReady(c)
+	if S == nil {
+		return
+	}
+	P := c.P
+	step, notified, prim := c.MustFunc("(*Mast).diffOne"), c.MustFunc("(*Mast).alreadyNotified"), c.MustFunc("(*Mast).load")
+	if step == nil || notified == nil || prim == nil {
+		return
+	}
+	// the step and its helpers, not entering the two reading primitives
+	scope := map[*ssa.Function]bool{step: true}
+	work := []*ssa.Function{step}
+	for len(work) > 0 {
+		fn := work[len(work)-1]
+		work = work[:len(work)-1]
+		for _, ci := range CallsOf(fn) {
+			cal := ir.Callee(ci.Common())
+			if cal == nil || !S.slice[cal] || cal == prim || cal == notified || scope[cal] {
+				continue
+			}
+			scope[cal] = true
+			work = append(work, cal)
+		}
+	}
+	for _, fn := range S.fns {
+		if !scope[fn] {
+			continue
+		}
+		for _, ci := range CallsOf(fn) {
+			cal := ir.Callee(ci.Common())
+			if c.Facts.External(ci) == "Persist.Load" {
+				c.Violation(fn, P.InstrPos(ci), "store read outside (*Mast).load", fn.Name()+" reads from the store directly")
+				continue
+			}
+			if cal != prim && cal != notified {
+				continue
+			}
+			args := ci.Common().Args
+			link := args[len(args)-1]
+			pos := P.InstrPos(ci)
+			what := fmt.Sprintf("%s(%s) in %s", cal.Name(), sdDesc(link), ir.FuncName(fn))
+			var v lpVerdict
+			switch sd := S.sideOf(link); {
+			case sd.single():
+				v = S.linkValProv(link, sd, ci, 0)
+			default:
+				v = S.linkValProv(link, sdOld, ci, 0)
+				if !v.ok {
+					v = S.linkValProv(link, sdNew, ci, 0)
+				}
+			}
+			switch {
+			case v.ok:
+				c.OK(pos, what, v.why, false)
+			case v.und:
+				c.Undecided(fn, pos, "read by "+cal.Name()+" of "+v.short, v.why)
+			default:
+				c.Violation(fn, pos, "read by "+cal.Name()+" of a link that is not a popped item's: "+sdDescShape(link),
+					fmt.Sprintf("%s reads %s, which is not the link of an item popped from a diff stack in this step: the step reads nodes beyond the two under comparison (e.g. children of a loaded node), which the cost bound 2·D+2 does not account for", fn.Name(), sdDesc(link)))
+			}
+		}
+	}
+}
+
+// ---- DELIVERALL -------------------------------------------------------------------
+
+func runDELIVERALL(c *Ctx) {
+	S := sidesReady(c)
+	if S == nil {
+		return
+	}
+	P := c.P
+	step := c.MustFunc("(*Mast).diffOne")
+	if step == nil {
+		return
+	}
+	dl, unres := S.LinkDeliveries()
+	for _, ci := range unres {
+		c.Undecided(ci.Parent(), P.InstrPos(ci), "link callback: removed is not a constant", "the delivery cannot be attributed to a side")
+	}
+	// deliveries per (function, cell)
+	type key struct {
+		fn *ssa.Function
+		sl *sdSlot
+	}
+	sites := map[key][]sdDelivery{}
+	var keys []key
+	for _, d := range dl {
+		sl := S.slotRef(d.link)
+		if sl == nil {
+			c.Undecided(d.at.Parent(), P.InstrPos(d.at), "link callback argument not a state field", "the delivered link is not read from a cell of the diff state")
+			continue
+		}
+		k := key{d.at.Parent(), sl}
+		if _, seen := sites[k]; !seen {
+			keys = append(keys, k)
+		}
+		sites[k] = append(sites[k], d)
+	}
+	if len(keys) == 0 {
+		c.Undecided(nil, "-", "no link delivery", "no delivery of a recorded link to the link callback found")
+		return
+	}
+	depthOf := map[key]int{}
+	for qi := 0; qi < len(keys); qi++ {
+		k := keys[qi]
+		fn, sl := k.fn, k.sl
+		kc := &cbpCtx{c: c, S: S, fn: fn, step: step}
+		var stepBlocks []*ssa.BasicBlock
+		for _, ci := range CallsOf(fn) {
+			if _, isStep := kc.stepCallee(ci); isStep {
+				stepBlocks = append(stepBlocks, ci.Block())
+			}
+		}
+		pos := P.InstrPos(sites[k][0].at)
+		blocked := map[*ssa.BasicBlock]bool{}
+		for _, d := range sites[k] {
+			blocked[d.at.Block()] = true
+		}
+		// valuation: this cell is non-nil, callbacks are non-nil
+		leaf := func(cond ssa.Value) (bool, bool) {
+			v, tnn, ok := ir.NilTest(cond)
+			if !ok {
+				return false, false
+			}
+			if r := S.slotRef(v); r == sl {
+				return tnn, true
+			}
+			if _, isSig := v.Type().Underlying().(*types.Signature); isSig {
+				return tnn, true
+			}
+			return false, false
+		}
+		if len(stepBlocks) == 0 {
+			// a helper that delivers the cell: every return that lets the
+			// diff go on (no error, keepGoing not false) must pass the
+			// delivery; its call sites then count as deliveries
+			if depthOf[k] >= 2 {
+				c.Undecided(fn, pos, "delivery of "+sl.field.Name()+" nested too deeply", "the rule follows delivering helpers two levels up to the function that runs the step")
+				continue
+			}
+			reach := ir.ReachableFrom(fn.Blocks[0], func(from, to *ssa.BasicBlock) bool {
+				return notifyPruned(from, to, blocked, leaf, func(_, _ *ssa.BasicBlock) bool { return false })
+			})
+			ei := ir.ErrorResultIndex(fn.Signature)
+			skipped := false
+			for _, r := range ir.Returns(fn) {
+				if !reach[r.Block()] || blocked[r.Block()] {
+					continue
+				}
+				goesOn := true
+				for j, op := range r.Results {
+					if j == ei && !ir.IsNilConst(op) {
+						goesOn = false
+					}
+					if kb, isC := ir.ConstBool(op); isC && !kb && sdIsBool(op.Type()) {
+						goesOn = false
+					}
+				}
+				if goesOn {
+					skipped = true
+				}
+			}
+			kind := "added"
+			if sites[k][0].removed {
+				kind = "removed"
+			}
+			if skipped {
+				c.Violation(fn, pos, "delivery of the "+kind+" link ("+sl.field.Name()+") can be skipped",
+					fmt.Sprintf("with %s set (and the callback present), %s can return — letting the diff go on — without handing it to the link callback: its delivery depends on something else, e.g. on the other side's link being nil", sl.name, fn.Name()))
+				continue
+			}
+			nc := 0
+			for _, cs := range P.Callers[fn] {
+				if !S.slice[cs.Parent()] {
+					continue
+				}
+				nc++
+				k2 := key{cs.Parent(), sl}
+				if _, seen := sites[k2]; !seen {
+					keys = append(keys, k2)
+					depthOf[k2] = depthOf[k] + 1
+				}
+				sites[k2] = append(sites[k2], sdDelivery{at: cs, removed: sites[k][0].removed, link: sites[k][0].link, via: fn.Name()})
+			}
+			if nc == 0 {
+				c.Undecided(fn, pos, "delivery of "+sl.field.Name()+" in a function that is never called", "no call site of "+fn.Name()+" in the diff")
+			} else {
+				c.OK(pos, "delivery of the "+kind+" link ("+sl.field.Name()+") in helper "+ir.FuncName(fn), fmt.Sprintf("passed before every go-on return; %d call site(s) count as deliveries", nc), false)
+			}
+			continue
+		}
+		bad := false
+		for _, sb := range stepBlocks {
+			reach := map[*ssa.BasicBlock]bool{}
+			for _, succ := range sb.Succs {
+				if notifyPruned(sb, succ, blocked, leaf, func(_, _ *ssa.BasicBlock) bool { return false }) {
+					continue
+				}
+				for b := range ir.ReachableFrom(succ, func(from, to *ssa.BasicBlock) bool {
+					return notifyPruned(from, to, blocked, leaf, func(_, _ *ssa.BasicBlock) bool { return false })
+				}) {
+					reach[b] = true
+				}
+			}
+			for _, sb2 := range stepBlocks {
+				if reach[sb2] {
+					bad = true
+				}
+			}
+		}
+		kind := "added"
+		if sites[k][0].removed {
+			kind = "removed"
+		}
+		if bad {
+			c.Violation(fn, pos, "delivery of the "+kind+" link ("+sl.field.Name()+") can be skipped",
+				fmt.Sprintf("with %s set by a step (and the callback present), %s can reach the next step without handing it to the link callback: its delivery depends on something else — e.g. on the other side's link being nil — so a step that records both an added and a removed node reports only one", sl.name, fn.Name()))
+		} else {
+			c.OK(pos, "delivery of the "+kind+" link ("+sl.field.Name()+") in "+ir.FuncName(fn), "every path from a step to the next passes it (or stops the diff)", false)
+		}
+	}
+}
+
+// ---- KEYEQ ------------------------------------------------------------------------
+
+func runKEYEQ(c *Ctx) {
+	S := sidesReady(c)
+	if S == nil {
+		return
+	}
+	P := c.P
+	// fields named on the access path of v
+	pathFields := func(v ssa.Value) (fields []string, whole string) {
+		v = ir.Strip(v)
+		if n, st := sdNamedStruct(v.Type()); n != nil && st != nil {
+			if _, isPtr := v.Type().Underlying().(*types.Pointer); !isPtr {
+				whole = n.Obj().Name()
+			}
+		}
+		for i := 0; i < 16; i++ {
+			v = ir.ResolveCell(ir.Strip(v))
+			switch x := v.(type) {
+			case *ssa.UnOp:
+				if x.Op != token.MUL {
+					return
+				}
+				v = x.X
+			case *ssa.FieldAddr:
+				fields = append(fields, ir.FieldName(x.X.Type(), x.Field))
+				v = x.X
+			case *ssa.Field:
+				fields = append(fields, ir.FieldName(x.X.Type(), x.Field))
+				v = x.X
+			case *ssa.IndexAddr:
+				v = x.X
+			case *ssa.Index:
+				v = x.X
+			default:
+				return
+			}
+		}
+		return
+	}
+	has := func(xs []string, s string) bool {
+		for _, x := range xs {
+			if x == s {
+				return true
+			}
+		}
+		return false
+	}
+	n := 0
+	for _, fn := range S.fns {
+		for _, ci := range CallsOf(fn) {
+			if c.Facts.External(ci) != "ext:reflect.DeepEqual" || len(ci.Common().Args) != 2 {
+				continue
+			}
+			a, b := ci.Common().Args[0], ci.Common().Args[1]
+			if S.sideOf(a)|S.sideOf(b) != sdBoth {
+				continue // not a comparison of the old with the new side
+			}
+			n++
+			pos := P.InstrPos(ci)
+			bad := false
+			for _, x := range []ssa.Value{a, b} {
+				fields, whole := pathFields(x)
+				switch {
+				case whole != "":
+					c.Violation(fn, pos, "DeepEqual on a whole "+whole,
+						fmt.Sprintf("%s compares %s, a whole %s (key included), with reflect.DeepEqual: keys that are equal under the tree's key order but not deeply equal make an unchanged entry look changed; only the two values are to be compared", fn.Name(), sdDesc(x), whole))
+					bad = true
+				case has(fields, "Key"):
+					c.Violation(fn, pos, "DeepEqual on a key",
+						fmt.Sprintf("%s compares the key %s with reflect.DeepEqual; key equality is decided by the tree's key order only", fn.Name(), sdDesc(x)))
+					bad = true
+				case has(fields, "Value"):
+				default:
+					c.Undecided(fn, pos, "DeepEqual on something that is not a Value", fmt.Sprintf("%s is compared across the sides with reflect.DeepEqual; the rule cannot tell that it is an entry's value", sdDesc(x)))
+					bad = true
+				}
+			}
+			if !bad {
+				c.OK(pos, "reflect.DeepEqual(old value, new value) in "+ir.FuncName(fn), "compares exactly the two sides' values", false)
+			}
+		}
+	}
+	if n == 0 {
+		c.Undecided(nil, "-", "no value comparison", "the diff never compares an old with a new value by reflect.DeepEqual: the rule cannot find the `changed` decision")
 	}
 }
